@@ -1076,6 +1076,10 @@ def decide_bool(px, st, v):
         a, b = v[2]
         if a == b:
             return [(True, st)]
+        # two known values of one enum in different variants are unequal - under the derived (structural) PartialEq or a std sum type;
+        # reached through the default `ne` of core, which is not a repository body (`state != State::Done`)
+        if a[0] == 'adt' and b[0] == 'adt' and a[1] == b[1] and a[2] != b[2] and structural_eq(px, a[1]):
+            return [(False, st)]
         # `x == None` is `x.is_none()`; `Some(..) == None` is false
         for x, y in ((a, b), (b, a)):
             if y[0] == 'adt' and y[2] == 'None' and not y[3] and 'option::Option' in y[1]:
@@ -1101,6 +1105,17 @@ def decide_bool(px, st, v):
                 return decide_bool(px, st, eqterm(val(x[2][0]), val(x[2][1])))
         return None
     return None
+
+
+def structural_eq(px, adt):
+    """is `==` on this sum type variant-wise: Option / Result / Ordering, or a repository type whose PartialEq impl is derive output"""
+    if re.search(r'(^|::)(option::Option|result::Result|cmp::Ordering)$', adt):
+        return True
+    short = adt.split('::', 1)[-1]
+    for imp in px.p.facts.impls:
+        if imp['trait_def'].endswith('cmp::PartialEq') and imp['trait'].endswith('std::cmp::PartialEq>') and imp['self_ty'] in (adt, short):
+            return bool(imp.get('derived'))
+    return False
 
 
 def decide_tag(px, st, c):
